@@ -3,3 +3,8 @@ using namespace smooth;
 REG_CSPL(3, SO3d, Cs3SO3d);
 REG_CSPL(2, SE2d, Cs2SE2d);
 REG_CSPL(4, SE3d, Cs4SE3d);
+using SE23d_c = smooth::SE_K_3<double, 2>;
+REG_CSPL(3, Galileid, Cs3Galileid);
+REG_BSPLINE(3, Galileid, Bs3Galileid);
+REG_BSPLINE(2, C1d, Bs2C1d);
+REG_SPLINE(3, SE23d_c, Sp3SE23d);
